@@ -80,7 +80,8 @@ func (e *EdDSA) UnmarshalBinary(buff []byte) error {
 
 	secret, _, prefix := group.NewKeyAndSeedWithInput(buff[:32])
 
-	e.seed = buff[:32]
+	// copy: buff belongs to the caller
+	e.seed = append([]byte(nil), buff[:32]...)
 	e.prefix = prefix
 	e.Secret = secret
 	e.Public = group.Point().Mul(e.Secret, nil)
